@@ -1,15 +1,15 @@
 /*
  * drv_heap.c — conformance driver for src/heap.c (and cstl_fls in src/common.c).
- * scope args: <prios e.g. 112233> <swap 0|1> [probes 0|1]
+ * scope args: <prios e.g. 112233> <swap 0|1> [probes 0|1] [push-bias %]
  * ops: 0 push(n)  1 pop  2 get(+size)  3 clear  4 swap  5 fls(probe index)
  */
 #include "engine.h"
 #include "cstl/heap.h"
 
-#define MAXN 512
+#define MAXN 2048
 struct el { int prio; int id; struct cstl_heap_node n; };
 static struct el pool[MAXN + 1];
-static int N, SWAP, PROBES = 1;
+static int N, SWAP, PROBES = 1, BIAS = 50;
 static struct cstl_heap H[2];
 static int cur;
 static unsigned char held[MAXN + 1];
@@ -42,6 +42,7 @@ static void drv_setup(int argc, char **argv)
     if (argc < 2) { fprintf(stderr, "drv_heap: scope = <prios> <swap> [probes]\n"); exit(64); }
     pr = argv[0]; N = (int)strlen(pr); SWAP = atoi(argv[1]);
     if (argc > 2) PROBES = atoi(argv[2]);
+    if (argc > 3) BIAS = atoi(argv[3]);       /* percentage of pushes in random mode */
     if (N > MAXN) exit(64);
     for (i = 1; i <= N; i++) { pool[i].prio = pr[i - 1] - '0'; pool[i].id = i; }
 }
@@ -145,12 +146,12 @@ static int drv_enum(vop_t *ops, int max)
 static int drv_random(unsigned long (*rnd)(void), vop_t *op)
 {
     unsigned long r = rnd() % 100; int sz = (int)H[cur].bt.size;
-    if (r < 50 || sz == 0) {
+    if (r < (unsigned long)BIAS || sz == 0) {
         int tries, n = 1;
         for (tries = 0; tries < 8; tries++) { n = 1 + (int)(rnd() % (unsigned)N); if (!held[n]) break; }
         if (held[n]) { op->k = 1; return 1; }
         op->k = 0; op->a[0] = n;
-    } else if (r < 88) op->k = 1;
+    } else if (r < 88 || BIAS > 60) op->k = 1;
     else if (r < 95) op->k = 2;
     else if (r < 96 && sz < 16) op->k = 3;
     else if (r < 98 && SWAP) op->k = 4;
